@@ -155,7 +155,7 @@ def run(ctx):
         ctx.violation("implementation violates C06: " + json.dumps({k: v for k, v in f.items() if k not in ("lines",)}, ensure_ascii=False)[:500],
                       {"kind": "impl-vs-oracle", "case": {k: v for k, v in f.items() if k != "lines"}, "lines": f["lines"]}, tag="oracle",
                       signature={"kind": "c06-oracle", "code": f["code"], "why": f["why"]})
-    found = bool(oracle_fail)
+    found = bool(ctx.violations)          # (failures attributed to a known finding do not count)
     if extraction_failed:
         ctx.violation(f"translator could not parse the braille tables ({extraction_failed})", {"kind": "translator", "theorem": "MC.Props.C06.classes_free_of_cells", "error": extraction_failed}, tag="translator", no_input=not found)
     if not pr["ok"] and not found:
